@@ -1,12 +1,17 @@
 """C13 - local-maximum labelling follows steepest ascent for every thread count (bounded stand-ins; the race is a known finding)."""
 import numpy as np
-from verif.units import BoundedUnit
+from verif.units import BoundedUnit, CUnit
 import contracts  # noqa
 
 LEVEL = "other"
 TRUSTED = []
-ASSUMPTIONS = ["bounded: seeded images only; the sequential contract of localmaxlabel.c (DESIGN.md section 5, C13) was not brought under the solver"]
-EXPLANATION = ("Run-time contracts on the freshly compiled kernels: the dense result for 1 thread equals the steepest-ascent specification "
+WALL_MS = 60000
+ASSUMPTIONS = ["bounded: seeded images only; of the sequential contract of localmaxlabel.c (DESIGN.md section 5, C13) only the first stage (neighbormax) "
+               "is under the solver; the label counting and the walk-to-maximum stage (a hand-made thread split with unsynchronised reads) are not"]
+EXPLANATION = ("Proved for all images of at least 2x2 pixels (neighbormax, the first stage): memory safety, data-race freedom of the row loop, and every "
+               "interior pixel receives a direction code 1..9 pointing at a largest of its nine neighbours (5 = the pixel is a local maximum); which "
+               "of several equal maxima is chosen is left open, as the property speaks about tie-free images. Bounded (not counted as proved): "
+               "run-time contracts on the freshly compiled kernels: the dense result for 1 thread equals the steepest-ascent specification "
                "(walk to the largest of the 8 neighbours until a maximum or the border is reached) on tie-free images, the number of labels equals the "
                "number of interior maxima, border pixels are 0, the result does not depend on the previous content of the label/work buffers nor on the "
                "thread count (lattice images: every pixel one step from its maximum; smooth images: long ascent paths), sparse and dense variants induce "
@@ -104,6 +109,52 @@ def bounded(ctx):
                     fails.append(dict(name="sparse and dense variants induce different partitions", shape=shape, smooth=smooth))
         if len(samples) < 2:
             samples.append(dict(shape=shape))
+    # (d) sparse patterns with gaps: partition of the stored pixels vs steepest ascent among the stored 8-neighbours
+    def sparse_reference(ii, jj, vv):
+        pos = {(a, b): k for k, (a, b) in enumerate(zip(ii, jj))}
+        up = []
+        for k, (a, b) in enumerate(zip(ii, jj)):
+            best = k
+            for da in (-1, 0, 1):
+                for db in (-1, 0, 1):
+                    q = pos.get((a + da, b + db))
+                    if q is not None and vv[q] > vv[best]:
+                        best = q
+            up.append(best)
+        root = []
+        for k in range(len(ii)):
+            q = k
+            while up[q] != q:
+                q = up[q]
+            root.append(q)
+        return root
+    patterns = [(np.array([1, 1, 4, 4]), np.array([1, 2, 3, 4]), np.array([5., 9., 3., 7.])),
+                (np.array([0, 0, 2, 2, 2]), np.array([0, 5, 6, 7, 9]), np.array([1., 8., 3., 9., 2.]))]
+    for _ in range(60 if ctx.tier == "quick" else 600):
+        nr, nc = rng.randint(3, 14), rng.randint(3, 14)
+        rows = np.sort(rng.choice(np.arange(0, 3 * nr), size=nr, replace=False))     # stored rows with empty rows in between
+        pts = []
+        prev_last = None
+        for r in rows:
+            cols = np.sort(rng.choice(np.arange(nc + 4), size=rng.randint(1, nc), replace=False))
+            if prev_last is not None and rng.rand() < 0.5:
+                cols = np.unique(np.concatenate([[prev_last + 1], cols[cols > prev_last + 1]]))   # first stored column = last column of the row before + 1
+            pts += [(r, c) for c in cols]
+            prev_last = cols[-1]
+        a = np.array(pts)
+        patterns.append((a[:, 0], a[:, 1], rng.permutation(len(a)).astype(float) + 1))
+    for ii, jj, vv in patterns:
+        ev += 1
+        nl, sl = clib.sparse_localmaxlabel(vv, ii, jj)
+        root = sparse_reference(ii, jj, vv)
+        m1, m2, ok = {}, {}, nl == len(set(root))
+        for a, b in zip(root, sl):
+            if m1.setdefault(a, b) != b or m2.setdefault(b, a) != a:
+                ok = False
+        if not ok and len(fails) < 6:
+            fails.append(dict(name="sparse pattern with gaps: labels differ from steepest ascent among the stored neighbours",
+                              rows=[int(x) for x in ii], cols=[int(x) for x in jj], values=[float(x) for x in vv],
+                              labels=[int(x) for x in sl], nlabels=int(nl)))
     # (b) thread independence on lattice images (deterministic: no path relabelling happens)
     for shape in [(9, 9), (30, 7), (1001, 7), (1000, 3), (64, 64), (200, 5), (37, 53)]:
         img = lattice(shape)
@@ -142,4 +193,4 @@ def bounded(ctx):
 
 
 def units(ctx):
-    return [BoundedUnit("steepest-ascent-threads-buffers", bounded, "6 (thorough 8) shapes x 2 image kinds; 7 lattice shapes x 7 thread counts; 40 (thorough 200) race runs")]
+    return [CUnit("localmaxlabel.c:neighbormax"), BoundedUnit("steepest-ascent-threads-buffers", bounded, "6 (thorough 8) shapes x 2 image kinds; 62 (thorough 602) gapped sparse patterns; 7 lattice shapes x 7 thread counts; 40 (thorough 200) race runs")]
